@@ -1406,7 +1406,12 @@ class SyncObj(object):
         else:
             data = None
         cluster = self.__otherNodes | {self.__selfNode}
-        self.__serializer.serialize((data, lastAppliedEntries[1], lastAppliedEntries[0], cluster), lastAppliedEntries[0][1])
+        extra = ()
+        if data is None:
+            # with a custom serializer the object state (which carries the enabled code version) is not
+            # part of the dump; keep the version with the internal data instead
+            extra = (self.__enabledCodeVersion,)
+        self.__serializer.serialize((data, lastAppliedEntries[1], lastAppliedEntries[0], cluster) + extra, lastAppliedEntries[0][1])
 
     def __loadDumpFile(self, clearJournal):
         try:
@@ -1432,6 +1437,8 @@ class SyncObj(object):
 
                 for i, consumer in enumerate(self.__consumers):
                     consumer._deserialize(consumersData[i])
+            elif len(data) > 4:
+                self.__enabledCodeVersion = data[4]
 
             if clearJournal or \
                     len(self.__raftLog) < 2 or \
